@@ -338,9 +338,11 @@ func (rs *runState) describeValue(b []byte) string {
 				}
 				// strings that are not valid UTF-8 are stored as "\x00b64:" + base64 (format of the index)
 				r.ID, r.Vary = indexString(r.ID), indexString(r.Vary)
+				dec := make(map[string]string, len(r.VaryResolved))
 				for k, v := range r.VaryResolved {
-					r.VaryResolved[k] = indexString(v)
+					dec[indexString(k)] = indexString(v)
 				}
+				r.VaryResolved = dec
 				keys := make([]string, 0, len(r.VaryResolved))
 				for k := range r.VaryResolved {
 					keys = append(keys, k)
